@@ -7,46 +7,176 @@ open JP JP.Fluent
 
 theorem next_spec {α : Type} (it : It α) :
     it.next.1 = it.drain.head? ∧ it.next.2.drain = it.drain.drop 1 := by
-  sorry
+  induction it with
+  | src xs => cases xs <;> simp [It.next, It.drain]
+  | islice it n ih =>
+    cases n with
+    | zero => simp [It.next, It.drain]
+    | succ n =>
+      rcases h : it.next with ⟨_ | x, it'⟩
+      · rw [h] at ih
+        have hnil : it.drain = [] := by
+          have := ih.1.symm
+          simpa using this
+        simp [It.next, h, It.drain, hnil]
+      · rw [h] at ih
+        obtain ⟨h1, h2⟩ := ih
+        cases hd : it.drain with
+        | nil => rw [hd] at h1; simp at h1
+        | cons y ys =>
+          rw [hd] at h1 h2
+          simp at h1 h2
+          simp [It.next, h, It.drain, hd, h1, h2]
+
+theorem advance_drain {α : Type} (n : Nat) (it : It α) :
+    (it.advance n).drain = it.drain.drop n := by
+  induction n generalizing it with
+  | zero => simp [It.advance]
+  | succ n ih =>
+    simp only [It.advance]
+    rw [ih, (next_spec it).2, List.drop_drop]
+    congr 1
+    omega
+
+theorem takeList_spec {α : Type} (n : Nat) (it : It α) :
+    (it.takeList n).1 = it.drain.take n ∧ (it.takeList n).2.drain = it.drain.drop n := by
+  induction n generalizing it with
+  | zero => simp [It.takeList]
+  | succ n ih =>
+    have hs := next_spec it
+    rcases h : it.next with ⟨_ | x, it'⟩
+    · rw [h] at hs
+      have hnil : it.drain = [] := by
+        have := hs.1.symm
+        simpa using this
+      have h2 := hs.2
+      simp only [hnil] at h2
+      simp [It.takeList, h, hnil, h2]
+    · rw [h] at hs
+      obtain ⟨h1, h2⟩ := hs
+      have ih' := ih it'
+      cases hd : it.drain with
+      | nil => rw [hd] at h1; simp at h1
+      | cons y ys =>
+        rw [hd] at h1 h2
+        simp at h1 h2
+        simp only [h2] at ih'
+        simp [It.takeList, h, ih'.1, ih'.2, h1]
+
+theorem drop_length_sub_one {α : Type} : ∀ (l : List α) (h : l ≠ []),
+    l.drop (l.length - 1) = [l.getLast h]
+  | [], h => absurd rfl h
+  | [a], _ => rfl
+  | a :: b :: t, _ => by
+    have ih := drop_length_sub_one (b :: t) (List.cons_ne_nil b t)
+    simp only [List.length_cons, Nat.add_sub_cancel] at ih ⊢
+    rw [List.drop_succ_cons, ih, List.getLast_cons (List.cons_ne_nil b t)]
+
+theorem dequeLast_one {α : Type} (l : List α) :
+    dequeLast l 1 = match l.getLast? with | some x => [x] | none => [] := by
+  unfold dequeLast
+  cases l with
+  | nil => simp
+  | cons a as =>
+    rw [List.getLast?_eq_some_getLast (List.cons_ne_nil a as)]
+    simp only
+    exact drop_length_sub_one _ (List.cons_ne_nil a as)
 
 theorem step_refines {α : Type} (it : It α) (op : Op) :
     (step it op).1 = (specStep it.drain op).1 ∧ (step it op).2.drain = (specStep it.drain op).2 := by
-  sorry
-
-theorem chain_refines_list {α : Type} (ops : List Op) (l : List α) :
-    run ops (.src l) = runSpec ops l := by
-  sorry
+  cases op with
+  | limit n | head n | first n =>
+    simp only [step, specStep]
+    split <;> simp [It.drain]
+  | drop n | skip n =>
+    simp only [step, specStep]
+    split
+    · simp
+    · refine ⟨rfl, ?_⟩
+      simp only
+      split
+      · exact advance_drain _ _
+      · have : n.toNat = 0 := by omega
+        simp [this]
+  | tail n | last n =>
+    simp only [step, specStep]
+    split <;> simp [It.drain, dequeLast]
+  | take n =>
+    simp only [step, specStep]
+    split
+    · simp
+    · have := takeList_spec n.toNat it
+      simp [this.1, this.2]
+  | tee n =>
+    simp only [step, specStep]
+    split
+    · simp
+    · split <;> simp [It.drain]
+  | firstOne | one =>
+    have := next_spec it
+    simp [step, specStep, this.1, this.2]
+  | lastOne =>
+    simp only [step, specStep]
+    rw [dequeLast_one]
+    cases it.drain.getLast? <;> simp [It.drain]
 
 theorem chain_refines_list_from {α : Type} (ops : List Op) (it : It α) :
     run ops it = runSpec ops it.drain := by
-  sorry
+  induction ops generalizing it with
+  | nil => simp [run, runSpec]
+  | cons op ops ih =>
+    obtain ⟨h1, h2⟩ := step_refines it op
+    simp only [run, runSpec]
+    rw [ih, h1, h2]
+
+theorem chain_refines_list {α : Type} (ops : List Op) (l : List α) :
+    run ops (.src l) = runSpec ops l :=
+  chain_refines_list_from ops (.src l)
 
 theorem limit_spec {α : Type} (it : It α) (n : Nat) :
     (step it (.limit n)).2.drain = it.drain.take n ∧ (step it (.head n)).2.drain = it.drain.take n ∧ (step it (.first n)).2.drain = it.drain.take n := by
-  sorry
+  have hn : ¬ ((n : Int) < 0) := by omega
+  refine ⟨?_, ?_, ?_⟩ <;> simp [step, hn, It.drain]
 
 theorem drop_spec {α : Type} (it : It α) (n : Nat) :
     (step it (.drop n)).2.drain = it.drain.drop n ∧ (step it (.skip n)).2.drain = it.drain.drop n := by
-  sorry
+  have h1 := (step_refines it (.drop n)).2
+  have h2 := (step_refines it (.skip n)).2
+  have hn : ¬ ((n : Int) < 0) := by omega
+  simp only [specStep, hn, if_false, Int.toNat_natCast] at h1 h2
+  exact ⟨h1, h2⟩
 
 theorem tail_spec {α : Type} (it : It α) (n : Nat) :
     (step it (.tail n)).2.drain = it.drain.drop (it.drain.length - n) ∧ (step it (.last n)).2.drain = it.drain.drop (it.drain.length - n) := by
-  sorry
+  have h1 := (step_refines it (.tail n)).2
+  have h2 := (step_refines it (.last n)).2
+  have hn : ¬ ((n : Int) < 0) := by omega
+  simp only [specStep, hn, if_false, Int.toNat_natCast] at h1 h2
+  exact ⟨h1, h2⟩
 
 theorem take_spec {α : Type} (it : It α) (n : Nat) :
     (step it (.take n)).1 = some (.taken (it.drain.take n)) ∧ (step it (.take n)).2.drain = it.drain.drop n := by
-  sorry
+  have h := step_refines it (.take n)
+  have hn : ¬ ((n : Int) < 0) := by omega
+  simp only [specStep, hn, if_false, Int.toNat_natCast] at h
+  exact h
 
 theorem tee_spec {α : Type} (it : It α) (n : Nat) (hn : 0 < n) :
     (step it (.tee n)).1 = some (.children (List.replicate (n - 1) it.drain)) ∧ (step it (.tee n)).2.drain = it.drain := by
-  sorry
+  have h := step_refines it (.tee n)
+  have hn1 : ¬ ((n : Int) < 0) := by omega
+  have hn2 : ¬ ((n : Int) = 0) := by omega
+  simp only [specStep, hn1, hn2, if_false, Int.toNat_natCast] at h
+  exact h
 
 theorem one_spec {α : Type} (it : It α) :
-    (step it .firstOne).1 = some (.item it.drain.head?) ∧ (step it .one).1 = some (.item it.drain.head?) ∧ (step it .lastOne).1 = some (.item it.drain.getLast?) := by
-  sorry
+    (step it .firstOne).1 = some (.item it.drain.head?) ∧ (step it .one).1 = some (.item it.drain.head?) ∧ (step it .lastOne).1 = some (.item it.drain.getLast?) :=
+  ⟨(step_refines it .firstOne).1, (step_refines it .one).1, (step_refines it .lastOne).1⟩
 
 theorem negative_refused {α : Type} (it : It α) (n : Int) (hn : n < 0) :
     ∀ op ∈ [Op.limit n, .head n, .first n, .drop n, .skip n, .tail n, .last n, .take n, .tee n], step it op = (some .valueError, it) := by
-  sorry
+  intro op hop
+  simp only [List.mem_cons, List.mem_nil_iff, or_false] at hop
+  rcases hop with h | h | h | h | h | h | h | h | h <;> subst h <;> simp [step, hn]
 
 end JP.Lemmas
